@@ -141,3 +141,18 @@ class YosysBehavioralRTLIRToVVisitorL2(
     s.check_res( node, node.name )
     nbits = node.Type.get_dtype().get_length()
     return f"{nbits}'(__loopvar__{s.blk.__name__}_{node.name})"
+
+  #-----------------------------------------------------------------------
+  # visit_TmpVar
+  #-----------------------------------------------------------------------
+
+  def visit_TmpVar( s, node ):
+    # A bit / element selection or a field access on a temporary variable is
+    # assembled from the signal expression of its base ( see
+    # signal_expr_prologue ): without one, `t[0] = ...` is emitted as
+    # `[1'd0] = ...` and `t.f` as `__f`.
+    ret = super().visit_TmpVar( node )
+    node.sexpr = { 'attr' : [], 'index' : [],
+                   's_attr' : ret.replace( '{', '{{' ).replace( '}', '}}' ),
+                   's_index' : "" }
+    return ret
